@@ -16,6 +16,7 @@ RULE = ('case = (strategy, create/update rate limits, workload of stores incl. n
         'distinct = (workload, fault plan, interleaving)')
 RULE_MORE = (" Series names include '', names that are not valid tagged paths and names under CARBON_METRIC_PREFIX; 'lists' configurations run with USE_WHITELIST and lists matching half of the series.")
 RULE_MORE = RULE_MORE + ' Round 11: backend faults that are OSErrors carrying an errno (EINTR, EAGAIN, ENOSPC, EIO, EROFS, EMFILE, EACCES).'
+RULE_MORE = RULE_MORE + ' Round 12: struct.error / OverflowError among the faults; rate-limited configurations on a moving clock.'
 RULE = RULE + RULE_MORE
 EXHAUSTIVE = {'quick': True, 'thorough': True}
 EXHAUSTIVE_OVER = 'fault plans with <= k raises over the first n backend calls (n=8,k=2 quick; n=12,k=3 thorough) per workload'
